@@ -602,3 +602,192 @@ def rule_source_error_path(prog, res, rule="R-SOURCE-ERROR"):
             else:
                 res.fail(rule, inst, "%s|%s" % (rule, name.split(" ")[0]), f.loc(s),
                          "after a failed camera_get_frame the source can exit without %s" % name, {"path_blocks": wit})
+
+
+# ---------------------------------------------------------------------------
+ITER_NEXT = {"frame_iterator_next"}
+
+
+def rule_consume(prog, res, fname, mode, rule="R-CONSUME"):
+    """Every reader-side release  channel_read_unmap(ch, rd, N)  with N != 0
+    releases exactly the bytes that were processed: N is measured from the
+    beginning of the most recent mapping ( N = X - map.beg ), and
+      mode 'append'  : a storage_append(st, B, E) lies on every path from the
+                       mapping to the release, with B = map.beg and E = X;
+                       a draining loop (not nested in the running loop)
+                       hands over the whole mapping, E = map.end;
+      mode 'iterate' : X = map.end and the release is reached only through
+                       the exhausted edge of an iteration over that mapping;
+      mode 'discard' : X = map.end.
+    Symbolic evaluation by regions.Regions; calls placed in a static helper
+    are evaluated there with the helper's parameters bound to the caller's
+    terms."""
+    from . import regions
+    f = prog.func(fname)
+    res.touched(f)
+    R = regions.Regions(prog)
+
+    def events(name):
+        """(position in f, statement in f, call node, evaluation context)"""
+        for b, i, s in f.all_stmts():
+            for c in ir.calls_in(s):
+                if c.get("fn") == name:
+                    yield (b.id, i), s, c, (f, (b.id, i), {})
+                elif c.get("fn"):
+                    h = prog.resolve(c["fn"], f)
+                    if h is None or h is f or not h.blocks:
+                        continue
+                    inner = [(hb.id, hi, hc) for hb, hi, hs in h.all_stmts() for hc in ir.calls_in(hs) if hc.get("fn") == name]
+                    if inner:
+                        genv = R._bind(f, (b.id, i), h, c.get("args", []), {}, 0)
+                        for hb, hi, hc in inner:
+                            yield (b.id, i), s, hc, (h, (hb, hi), genv)
+
+    def ev(ctx, e):
+        return R.term(ctx[0], ctx[1], e, ctx[2])
+
+    sites = [(pos, s, c, ctx) for pos, s, c, ctx in events("channel_read_unmap")
+             if len(c.get("args", [])) == 3 and not ir.is_const(c["args"][2], 0)]
+    if not sites:
+        raise AnalysisBroken("%s no longer releases a mapped region with a byte count" % fname)
+
+    def is_map(ss):
+        return bool(calls(ss, "channel_read_map")) or paths.stmt_reaches(prog, f, ss, {"channel_read_map"})
+
+    def forward(src):
+        """positions reachable from src without passing another mapping"""
+        out = set()
+        seen_ = set()
+        st_ = [(src[0], src[1] + 1)]
+        while st_:
+            b_, j_ = st_.pop()
+            blk_ = f.blocks[b_]
+            stop = False
+            for jj in range(j_, len(blk_.stmts)):
+                out.add((b_, jj))
+                if is_map(blk_.stmts[jj]):
+                    stop = True
+                    break
+            if stop:
+                continue
+            for t_ in blk_.succ_ids():
+                if t_ not in seen_:
+                    seen_.add(t_)
+                    st_.append((t_, 0))
+        return out
+
+    def map_pos(m):
+        for b2, i2, s2 in f.all_stmts():
+            if any(id(cc) == m for cc in ir.calls_in(s2)):
+                return (b2.id, i2)
+        return None
+    n = 0
+    nat = paths.natural_loops(f)
+    appends = list(events("storage_append")) if mode == "append" else []
+    for pos, s, c, ctx in sites:
+        bid, i = pos
+        depth = sum(1 for h, body in nat if bid in body)
+        key = "%s|%s|%s" % (rule, fname, "drain" if depth <= 1 else "running")
+        inst = "%s: release at line %s consumes what was processed" % (fname, s.get("line"))
+        tN = ev(ctx, c["args"][2])
+        names = {}
+        ok_shape = isinstance(tN, tuple) and tN[0] == "sub" and isinstance(tN[2], tuple) and tN[2][0] == "map" and tN[2][2] == "beg"
+        mp = map_pos(tN[2][1]) if ok_shape else None
+        if not ok_shape or mp is None:
+            res.fail(rule, inst, key + "|measure", f.loc(s),
+                     "%s releases %s bytes of its reader's region; that count is not measured from the beginning of the region the last channel_read_map returned, so the bytes released are not the bytes processed"
+                     % (fname, ir.render(c["args"][2])), {"term": regions.show(tN)})
+            n += 1
+            continue
+        m = tN[2][1]
+        names[m] = "map"
+        X = tN[1]
+        # the mapping must be the most recent one on every path: walking back
+        # from the release, the first mapping met is m
+        stale = False
+        seen = set()
+        st = [(bid, i)]
+        preds = f.preds()
+        while st and not stale:
+            b_, i_ = st.pop()
+            blk = f.blocks[b_]
+            hit = False
+            for j in range(min(i_, len(blk.stmts)) - 1, -1, -1):
+                if is_map(blk.stmts[j]):
+                    hit = True
+                    if (b_, j) != mp:
+                        stale = True
+                    break
+            if hit:
+                continue
+            for p in preds.get(b_, []):
+                if p not in seen:
+                    seen.add(p)
+                    st.append((p, len(f.blocks[p].stmts)))
+        if stale:
+            res.fail(rule, inst, key + "|stale", f.loc(s),
+                     "%s measures the released byte count on a mapping that is not the most recent channel_read_map of that reader" % fname)
+            n += 1
+            continue
+        whole = X == ("map", m, "end")
+        problems = []
+        detail = "N = %s" % regions.show(tN, names)
+        if mode == "append":
+            after_map = forward(mp)
+            on_path = [(p2, s2, c2, ctx2) for p2, s2, c2, ctx2 in appends
+                       if p2 in after_map and (p2 == pos or pos in forward(p2))]
+            okp, w = paths.all_paths_pass(f, mp, {pos}, paths.through_callees(prog, f, has_call("storage_append")))
+            if not okp and not any(p2 == pos for p2, _, _, _ in on_path):
+                problems.append(("skip", "a path from the mapping to the release hands nothing to storage_append: the released frames are never stored"))
+            for p2, s2, c2, ctx2 in on_path:
+                tB = ev(ctx2, c2["args"][1])
+                tE = ev(ctx2, c2["args"][2])
+                if tB != ("map", m, "beg"):
+                    problems.append(("begin", "storage_append at line %s starts at %s, not at the beginning of the mapped region" % (s2.get("line"), regions.show(tB, names))))
+                if tE != X:
+                    problems.append(("extent", "storage_append at line %s stores up to %s but %s bytes are released: frames are %s"
+                                     % (s2.get("line"), regions.show(tE, names), regions.show(tN, names),
+                                        "dropped or stored twice")))
+            if depth <= 1 and not whole:
+                problems.append(("drain", "the draining loop hands over only part of the mapping (up to %s): frames still inside their write delay when the acquisition stops are never stored" % regions.show(X, names)))
+            detail += "; %d storage_append call(s) with [map.beg, %s)" % (len(on_path), regions.show(X, names))
+        elif mode in ("iterate", "discard"):
+            if not whole:
+                problems.append(("extent", "the whole region is expected to be released, but N = %s" % regions.show(tN, names)))
+            if mode == "iterate" and whole:
+                def exhausted(cnode, lab, blk):
+                    if lab != "false":
+                        return False
+                    nodes = list(ir.walk(cnode))
+                    for y in list(nodes):
+                        if y.get("k") == "ref":
+                            t = f.resolve_ref(y)
+                            if t is not None:
+                                nodes += list(ir.walk(t))
+                    for y in nodes:
+                        if y.get("k") == "call" and y.get("fn") in ITER_NEXT:
+                            # the iterator as it was initialised (only the
+                            # stepping function advances it)
+                            R.dirty_ok = True
+                            try:
+                                it = R.ptr(f, (blk.id, 0), y["args"][0])
+                            finally:
+                                R.dirty_ok = False
+                            if isinstance(it, dict):
+                                for v in it.values():
+                                    if isinstance(v, dict) and v.get("beg") == ("map", m, "beg") and v.get("end") == ("map", m, "end"):
+                                        return True
+                        if y.get("k") == "bin" and y.get("op") in ("<", "!="):
+                            r_ = R.term(f, (blk.id, len(blk.stmts)), y["r"])
+                            if r_ == ("map", m, "end"):
+                                return True
+                    return False
+                if not paths.edge_dominated_correlated(f, pos, exhausted):
+                    problems.append(("exhaust", "the whole region is released although the walk over its frames can end early: the remaining frames are skipped"))
+                detail += "; reached only through the exhausted edge of the frame walk"
+        for tag, msg in problems:
+            res.fail(rule, inst, key + "|" + tag, f.loc(s), "%s: %s" % (fname, msg))
+        if not problems:
+            res.oblige(rule, inst, True, detail, f.loc(s))
+        n += 1
+    return n
